@@ -71,18 +71,6 @@ def gen_cases(tier, seed):
     return cases
 
 
-def _reseed(cfg):
-    """the same configuration with other constructor-given VALUES (scales / shifts, permutations) where those live in buffers"""
-    if isinstance(cfg, dict):
-        out = {k: _reseed(v) for k, v in cfg.items()}
-        if cfg.get("fam") in ("pointwise_affine", "permutation") and "pseed" in cfg and cfg.get("kind") != "reverse":
-            out["pseed"] = cfg["pseed"] + 1
-        return out
-    if isinstance(cfg, list):
-        return [_reseed(v) for v in cfg]
-    return cfg
-
-
 def _cell(r, cfg, me, pol, special):
     r.cell(cfg["fam"], pol, "img" if len(me["shape"]) == 3 else "2d", "ctx" if me["ctx_shape"] else "noctx",
            "sp" if special else "int", cfg.get("tails", "-"), "uncond" if cfg.get("uncond") else "-",
@@ -105,18 +93,7 @@ def run_case(case):
     B = case["batch"]
     if case.get("pre") == "revalued":
         try:
-            other = zoo.make(_reseed(cfg), "randn0.3", case["seed"] + 5)
-            xo = zoo.sample_inputs(me, B, case["seed"] + 7, structured="one")
-            co = zoo.sample_context(me, B, case["seed"] + 8)
-            with torch.no_grad():
-                yo = other(xo, co)[0]
-                if me.get("invertible", True):
-                    try:
-                        other.inverse(yo, co)
-                    except Exception:
-                        pass
-            other.load_state_dict(model.state_dict())
-            other.train(model.training)
+            other = zoo.revalued(cfg, model, me, case["seed"], B)
             model = other
             r.count("revalued_objects")
         except Exception as e:
